@@ -9,7 +9,7 @@ import traceback
 
 VERIF = os.path.dirname(os.path.dirname(os.path.abspath(__file__)))
 sys.path.insert(0, VERIF)
-sys.path.insert(1, "/repo/src")
+import vk  # noqa: E402,F401  (repository under test first on sys.path)
 sys.setrecursionlimit(50000)
 
 
